@@ -350,6 +350,46 @@ PENDING_REASON = ("check not built yet at this commit (work in progress; the des
                   "the property is expected to be claimed once its model, theorems and correspondence exist)")
 
 
+# sentences appended to the claim texts: theorems added after the first build (compositions of the models)
+ADDENDA = {
+    "C01": " Through the decision cache (CacheExplain.v, composing C08's transparency theorem): for every history of evaluations, "
+           "policy replacements, cache clears and clock ticks on engines with a contract-meeting cache, every allowed answer of the "
+           "cached run — hits included — is explained by an applicable permit rule of the policy the engine holds at that time.",
+    "C11": " Through the decision cache (CacheExplain.v): rule-id truthfulness and the no-rule reasons hold for every answer of a cached "
+           "history, hit or miss, about the policy held at that time; composed with the DecisionLogger model (AuditRedact.v): a logged "
+           "record naming a rule names an applicable rule with the recorded effect, flag, reason and obligations.",
+    "C02": " Through the decision cache (CacheExplain2.v): at every site of a cached history the answer for a set is the specified "
+           "combination of the children's results under the policy held at that time.",
+    "C06": " Through the decision cache (CacheExplain2.v): for histories of schema-valid policies no answer of the cached run is a raise "
+           "and every Decision is well-formed with a documented reason.",
+    "C07": " Through the decision cache (CacheExplain2.v): every answer of a cached history, hit or miss, is gated by the built-in checker "
+           "on this request's context (the check is re-done on hits).",
+    "C03": " At engine level and through the decision cache (CacheExplain3.v): guard_decide / guard_eval on a single policy is the "
+           "reference evaluation of the most specific matching tier (or, when the compiled function raises, the interpreter over all "
+           "rules — stated precisely), rules whose target mismatches are irrelevant to the Decision, at every site of a cached history.",
+    "C05": " At engine level (CacheExplain3.v): the rule a Decision names matches the request by match_resource with the guard's own "
+           "type mode, with the documented type / id / attrs table visible in the statement; also at every site of a cached history.",
+    "C18": " Engine side (RolesEngine.v): what the resolver answered is what conditions read at subject.roles (hasAny / hasAll / contains "
+           "/ in decide membership in it) and what the audit payload records; without an answer the own roles are there unchanged.",
+    "C20": " Composed with the engine model (AsgiEngine.v): the downstream application runs only if the policy has an applicable permit "
+           "rule whose obligations are not refused; no applicable rule gives the generic 403; an engine exception propagates without a "
+           "response and without downstream.",
+    "C10": " Composed with the file-store model (ReloadFile.v): with one atomic_write(path, new) over a complete document, crashing at any "
+           "step and interleaved with any reloader checks, the active policy is always the initial one, parse(old) or parse(new) — never a "
+           "torn document — and after a completed write the next due or forced check installs parse(new) (under the stated stat-signature "
+           "proviso).",
+    "C16": " Composed with the reloader model (ReloadFile.v): every load during a write parses a whole file; the final directory is the "
+           "writer's last completed step.",
+    "C13": " Composed with the local checker model of C12 (RelLocal.v): with LocalRelationshipChecker as the oracle a rel condition is never "
+           "true without a derivation of the canonical triple (whatever the limits), is true iff derivable when the limits do not bind, "
+           "and a permit resting on rel rules rests on a derivable triple.",
+    "C19": " Composed with the engine model (AuditRedact.v): for a Guard whose sink is a DecisionLogger the emitted record carries the "
+           "returned decision's fields unchanged, satisfies the redaction guarantees on the environment part, logging never changes the "
+           "decision or (copy mode) the caller's environment, and denies / permits with obligations are always emitted under smart "
+           "sampling with default rates.",
+}
+
+
 def load_note_claims():
     """claims written by the builders of single properties: notes/<Cxx>-claim.json (text, note, technique, design_ref)"""
     import glob
@@ -369,7 +409,8 @@ def main():
     for p in ALL:
         if p not in CLAIMED:
             continue
-        c = CLAIMED[p]
+        c = dict(CLAIMED[p])
+        c["text"] = c["text"] + ADDENDA.get(p, "")
         checks.append({
             "property_id": p,
             "quick_cmd": f"./check {p} quick",
